@@ -44,9 +44,14 @@ Fixpoint dispatch (fuel : nat) (s : xstate) : xstate :=
     | [] => s
     | id :: rest =>
       if Nat.ltb (length (x_inflight s)) (x_workers s)
-      then dispatch f {| x_table := x_table s; x_objs := x_objs s; x_queue := rest; x_inflight := x_inflight s ++ [id];
-                         x_timers := x_timers s; x_next := x_next s; x_workers := x_workers s;
-                         x_probes := x_probes s ++ [e_hash (obj s id)] |}
+      then
+        (* the worker probes what it took from the queue only if that object is still the tracked one *)
+        if match afind (e_hash (obj s id)) (x_table s) with Some id' => N.eqb id' id | None => false end
+        then dispatch f {| x_table := x_table s; x_objs := x_objs s; x_queue := rest; x_inflight := x_inflight s ++ [id];
+                           x_timers := x_timers s; x_next := x_next s; x_workers := x_workers s;
+                           x_probes := x_probes s ++ [e_hash (obj s id)] |}
+        else dispatch f {| x_table := x_table s; x_objs := x_objs s; x_queue := rest; x_inflight := x_inflight s;
+                           x_timers := x_timers s; x_next := x_next s; x_workers := x_workers s; x_probes := x_probes s |}
       else s
     end
   end.
